@@ -29,6 +29,8 @@ pub struct SpaceOpts {
     /// position family: nesting depth with the reduced context set, and with the full set
     pub position: usize,
     pub position_full: usize,
+    /// include the adjacent-branch family (with the other families, when `position` > 0)
+    pub adjacent: bool,
 }
 
 impl SpaceOpts {
@@ -43,6 +45,7 @@ impl SpaceOpts {
                 letter_canonical: true,
                 position: 2,
                 position_full: 1,
+                adjacent: true,
             },
             Tier::Thorough => SpaceOpts {
                 shape: 5,
@@ -53,6 +56,7 @@ impl SpaceOpts {
                 letter_canonical: true,
                 position: 3,
                 position_full: 2,
+                adjacent: true,
             },
         }
     }
@@ -156,8 +160,10 @@ pub fn for_each_expr(opts: &SpaceOpts, f: &(dyn Fn(&Expr) + Sync)) -> u64 {
             flags.par_iter().for_each(|s| visit(s, "flags"));
             let cased = gen::cased_family();
             cased.par_iter().for_each(|s| visit(s, "cased"));
-            let adjacent = gen::adjacent_family(opts.position_full >= 2);
-            adjacent.par_iter().for_each(|s| visit(s, "adjacent"));
+            if opts.adjacent {
+                let adjacent = gen::adjacent_family(opts.position_full >= 2);
+                adjacent.par_iter().for_each(|s| visit(s, "adjacent"));
+            }
         }
     }
     if opts.corpus {
